@@ -9,7 +9,7 @@ os.makedirs("/tmp/mut", exist_ok=True)
 if not os.path.exists(wt):
     subprocess.run(["git", "-C", "/repo", "worktree", "add", "--detach", wt, "HEAD"], check=True, capture_output=True)
 prop = next(json.loads(l) for l in open("/verif/properties.jsonl") if json.loads(l)["id"] == pid)
-tmpl = open("/tmp/vt/agent_mutant.txt").read()
+tmpl = open(os.path.join(os.path.dirname(os.path.abspath(__file__)), "agent_mutant.txt")).read()
 txt = tmpl + f"""
 YOUR WORKTREE: {wt}
 
